@@ -2,23 +2,8 @@
 
 
 def classify(case):
-    """the recorded finding: checkChangeConflictExclusiveKinds(st, <new exclusive kind>, ignore) answers `no conflict`
-    although a change is in progress, when every in-progress change that is not the ignored one is a refresh-snap /
-    revert-snap change that is not a snapd downgrade. Only direct `excl` queries of exactly that class are keyed."""
-    i = case.get("input") or {}
-    q = i.get("query") or {}
-    if q.get("q") != "excl":
-        return None
-    busy = []
-    for n, ch in enumerate(i.get("changes") or [], 1):
-        ready = [t.get("ready", False) for t in ch.get("tasks") or []]
-        if ch.get("snapd"):
-            ready.append(ch.get("snapd_ready", False))
-        if all(ready) or n == q.get("ignore"):
-            continue
-        busy.append(ch)
-    if busy and all(c["kind"] in ("refresh-snap", "revert-snap") and c.get("snapd", 0) not in (1, 3) for c in busy):
-        return "new-exclusive-vs-refresh"
+    """no recorded finding: the former class new-exclusive-vs-refresh is repaired in /repo (commit ed8df80, `fixed:` line in
+    KNOWN_FINDINGS); the direct cases of that class stay in the exhaustive enumeration and must now observe a conflict"""
     return None
 
 
@@ -58,8 +43,6 @@ SPEC = dict(
         "in the history driver handlers never run: progress is made by setting task statuses; the suite's fakeStore / fakeSnappyBackend stand for the store and the system",
     ],
     assumptions=[
-        "PARTIAL: `a request that must run exclusively is refused while any other change is in progress` is proved only outside the "
-        "recorded loophole (in-progress refresh-snap / revert-snap change that is not a snapd downgrade): KNOWN FINDING new-exclusive-vs-refresh",
         "the per-snap invariant is about requests that go through the conflict check and whose tasks affect only snaps they checked (req_wf); "
         "call sites that create tasks without calling CheckChangeConflict* are outside the model (which API calls the check is tied by the "
         "history driver for Remove/Disable/Enable/Revert/Switch/Update/Install only; ifacestate.Connect/Disconnect, aliases, snapshots, "
